@@ -1,3 +1,4 @@
+import Driver.Tee
 import Driver.CachedProperty
 import Driver.Lru
 import Driver.Decorator
@@ -19,6 +20,7 @@ def dispatch (j : Json) : Except String Json := do
   | "decorator" => Drv.Decorator.run j
   | "lru" => Drv.Lru.run j
   | "cachedprop" => Drv.CachedProperty.run j
+  | "tee" => Drv.Tee.run j
   | _ => throw s!"unknown machine {m}"
 
 partial def loop (h : IO.FS.Stream) (out : IO.FS.Stream) : IO Unit := do
